@@ -163,11 +163,20 @@ static size_t literal_stream(const char *method, const uint8_t *bytes, size_t nb
 	if (!strcmp(method, "-lzs-")) return ref_lzs_serialise(lc, (int) nb, out, cap);
 	if (!strcmp(method, "-lz5-")) return ref_lz5_serialise(lc, (int) nb, out, cap);
 	if (M) {
+		/* many small blocks (3, 5, 2, 7, ... commands): the decoder reading this stream starts new blocks all the time */
 		static ref_lh_block b;
+		static const int sizes[6] = { 3, 5, 2, 7, 1, 4 };
 		ref_bw w;
+		size_t k = 0;
+		int bi = 0;
 		ref_bw_init(&w, out, cap);
-		if (!ref_lh_block_auto(M, &b, lc, (int) nb) || !ref_lh_write_block(M, &w, &b)) return 0;
-		return ref_bw_bytes(&w);
+		while (k < nb) {
+			int take = sizes[bi++ % 6];
+			if ((size_t) take > nb - k) take = (int) (nb - k);
+			if (!ref_lh_block_auto(M, &b, lc + k, take) || !ref_lh_write_block(M, &w, &b)) return 0;
+			k += (size_t) take;
+		}
+		return w.overflow ? 0 : ref_bw_bytes(&w);
 	}
 	if (!strcmp(method, "-lh1-")) {
 		static ref_lh1_tree t;
